@@ -9,6 +9,9 @@
 (*                 blob ok <=> NoSecretsOK; an encrypted blob is readable only with the same    *)
 (*                 kek and associated data (nil == empty), and shows only                       *)
 (*                 encrypted_keyset + keyset info metadata, no key bytes.                       *)
+(*   every string-valued output (error texts of refusing / failing APIs, fmt %v %+v %#v of      *)
+(*   the handle, its entries, key objects and parameters objects, panic values) is scanned the   *)
+(*   same way, additionally with escapes undone and number lists decoded: no leak.               *)
 (* Coverage expectations: every artifact decodes; the leak scanner DOES fire on the            *)
 (* cleartext blob of a keyset that holds secrets (positive control of the scanner).            *)
 EXTENDS KeysetCatalog, Json, TLC
@@ -44,8 +47,13 @@ JudgeHandle(e) ==
   ELSE IF e.sec.newHandleNoSecrets.ok # S!NoSecretsAPIsSucceed(h)
          THEN <<IF e.sec.newHandleNoSecrets.ok THEN "NewHandleWithNoSecrets accepts a keyset with secret / unknown key material"
                 ELSE "NewHandleWithNoSecrets refuses a public / remote-only keyset", MatClass(h)>>
-  ELSE LET a == JudgeArtifact("String()", "string", "text", "none", e.sec.string) IN
-       IF a # <<>> THEN a ELSE JudgeArtifact("KeysetInfo()", "keysetInfo", "proto", "none", e.sec.keysetInfo)
+  ELSE LET a == JudgeArtifact("String()", "string", "text", "none", e.sec.string)
+           b == JudgeArtifact("KeysetInfo()", "keysetInfo", "proto", "none", e.sec.keysetInfo)
+           leaky == {i \in DOMAIN e.sec.texts : ~S!TextArtifactOK(e.sec.texts[i].leak)}
+       IN IF a # <<>> THEN a
+          ELSE IF b # <<>> THEN b
+          ELSE IF leaky # {} THEN <<"key bytes appear in a string-valued output", e.sec.texts[CHOOSE i \in leaky : \A j \in leaky : i <= j].name>>
+          ELSE <<>>
 
 JudgeRead(e, h, blob, r) ==
   LET wm == ModeOf(e.w)
@@ -53,7 +61,8 @@ JudgeRead(e, h, blob, r) ==
       exp == S!Read(blob, r.f, rm)
       tag == e.w.f \o "/" \o e.w.m \o " -> " \o r.f \o "/" \o r.m
   IN
-  IF r.panic THEN <<"panic in a keyset reader", tag>>
+  IF ~S!TextArtifactOK(r.textleak) THEN <<"key bytes appear in a string-valued output", "error / panic value of a keyset reader", tag>>
+  ELSE IF r.panic THEN <<"panic in a keyset reader", tag>>
   ELSE IF e.w.m = "encrypted" /\ r.m = "encrypted" /\ r.f = e.w.f /\ r.ok # ~S!IsFail(exp)
          THEN <<IF r.ok THEN "an encrypted keyset is read with a different key-encryption key or associated data"
                 ELSE "an encrypted keyset is not readable with its own key-encryption key and associated data", tag,
@@ -75,7 +84,8 @@ JudgeIO(e) ==
       blob == S!Write(h, e.w.f, wm)
       tag == e.w.f \o "/" \o e.w.m
   IN
-  IF e.wpanic THEN <<"panic in a keyset writer", tag>>
+  IF ~S!TextArtifactOK(e.wtextleak) THEN <<"key bytes appear in a string-valued output", "error / panic value of a keyset writer", tag>>
+  ELSE IF e.wpanic THEN <<"panic in a keyset writer", tag>>
   ELSE IF e.w.m = "noSecrets" /\ e.wok # S!NoSecretsAPIsSucceed(h)
          THEN <<IF e.wok THEN "WriteWithNoSecrets exports a keyset with secret / unknown key material"
                 ELSE "WriteWithNoSecrets refuses a public / remote-only keyset", tag, MatClass(h)>>
